@@ -113,7 +113,7 @@ def h_checked_sub(F, R):
                     err = pp(strip(inner["args"][1]))
                     R.check(err == "Error::InvalidRemainingLength{}", "H-valid", "%s/checked_sub-error/%s" % (fid, pp(strip(inner["args"][0]))[:50]),
                             "%s reports a remaining-length underflow as %s" % (fid, err), where=loc(x))
-    R.floor("H-valid", "checked_sub sites", n, 14)
+    R.floor("H-valid", "checked_sub sites", n, 4)
 
 
 # ---- T-bits: CONNECT flags, subscription options, CONNACK flags ------------------------------------------------
